@@ -7,6 +7,14 @@ A Go nil-pointer dereference is the explicit outcome `panicked := true`, so that
 does not make "never panics" vacuous: every guard is a Boolean read from the source
 (`Facts.c12Guards`), and a missing guard makes the model panic exactly where the code would.
 
+The nil guard of `verifier.VerifyBlob` stands BEFORE the choice between the two statement lookups
+(by name / global): whether the document is missing is decided the same way for both; the verdict
+depends on `Input.named` only in that a global statement cannot be of level skip (`blobStmt`), and
+not at all on how many goroutines share the verifier (`Input.workers`) - theorems
+`policy_name_irrelevant`, `missing_document_same_for_both_lookups`, `workers_irrelevant`; the
+harness runs the whole matrix for both values of `named`, and once more with one shared verifier
+under several goroutines (child process), each of which must observe the sequential observation.
+
 Malformed-input cases (`fuzz := true`: arbitrary bytes offered to a parser-facing entry point)
 are outside what a model can exhibit: for them the model only states the expectation "returns
 normally with a consistent (outcome, error) pair" which the harness samples (DESIGN.md C12).
@@ -73,6 +81,11 @@ inductive Entry
   | userMetadata     -- UserMetadata() of the outcome verifier.Verify returned
   | nilArgs          -- notation.Verify / VerifyBlob with nil verifier / repository / reader
   | parser           -- a parser-facing entry point fed with a malformed document (fuzz cases only)
+  | loader           -- a file-based loader / `New*FromConfig` constructor over a configuration directory
+                     -- holding an empty, cut, BOM-prefixed, ... file (sampled cases only)
+  | concurrent       -- one shared object (verifier, trust store, plugin manager, document, cache,
+                     -- repository, signer) used by `workers` goroutines at once, in a child process
+                     -- (a runtime `fatal error` cannot be recovered; sampled cases only)
   deriving DecidableEq, Repr, FromJson, ToJson
 
 structure Input where
@@ -81,6 +94,9 @@ structure Input where
   blob : Stmt
   manager : Bool          -- a plugin manager is configured
   sig : Sig
+  named : Bool := true    -- blob verification asks for its statement BY NAME (`TrustPolicyName` set); `false`:
+                          -- empty name, the document's GLOBAL statement is looked up (a second lookup method)
+  workers : Nat := 1      -- goroutines using the one object under test at the same time (1 = sequential)
   fuzz : Bool             -- malformed-input / configuration-sweep case (sampled, not modelled)
   label : String          -- what the sampled case is (configuration, stream); ignored by the model
   data : String           -- hex of the bytes offered to the entry point (sampled cases); ignored by the model
@@ -125,9 +141,15 @@ def vVerify (g : Guards) (i : Input) : Obs :=
   if i.oci == .missing then (if g.vVerifyDocNil then failNoOutcome else panic)
   else verifyWithStmt g i.oci i.manager i.sig
 
+/-- the statement the blob lookup yields: asked for WITHOUT a name only the document's global
+statement can apply, and `BlobDocument.Validate` refuses a global statement of level skip - a
+document whose `c12` statement skips has no global statement -/
+def blobStmt (i : Input) : Stmt :=
+  if !i.named && i.blob == .skip then .noMatch else i.blob
+
 def vVerifyBlob (g : Guards) (i : Input) : Obs :=
   if i.blob == .missing then (if g.vVerifyBlobDocNil then failNoOutcome else panic)
-  else verifyWithStmt g i.blob i.manager i.sig
+  else verifyWithStmt g (blobStmt i) i.manager i.sig
 
 /-- `SkipVerify`: (error, skip) - reported as an Obs with the level outcome when skipped -/
 def skipVerify (g : Guards) (i : Input) : Obs :=
@@ -198,6 +220,8 @@ def runWith (g : Guards) (i : Input) : Obs :=
     | .userMetadata => userMetadata g i
     | .nilArgs => nilArgs g
     | .parser => { panicked := false, err := false, outcome := none, consistent := true }
+    | .loader => { panicked := false, err := false, outcome := none, consistent := true }
+    | .concurrent => { panicked := false, err := false, outcome := none, consistent := true }
 
 def run (i : Input) : Obs := runWith sourceGuards i
 
@@ -207,15 +231,16 @@ def run (i : Input) : Obs := runWith sourceGuards i
 def policySelected (i : Input) : Bool :=
   match i.entry with
   | .vVerify => i.oci == .skip || i.oci == .enforce
-  | .vVerifyBlob => i.blob == .skip || i.blob == .enforce
-  | .vVerifyBlobGenError => i.blob == .skip || i.blob == .enforce
+  | .vVerifyBlob => blobStmt i == .skip || blobStmt i == .enforce
+  | .vVerifyBlobGenError => blobStmt i == .skip || blobStmt i == .enforce
   | _ => false
 
 def clauses (i : Input) (o : Obs) : Clauses :=
   [ ("returns_normally_never_panics", !o.panicked),
     ("pair_consistent_as_observed", o.consistent),
     ("no_error_means_outcome_without_error",
-      i.fuzz || i.entry == .skipVerify || i.entry == .userMetadata || i.entry == .parser || o.err ||
+      i.fuzz || i.entry == .skipVerify || i.entry == .userMetadata || i.entry == .parser || i.entry == .loader ||
+        i.entry == .concurrent || o.err ||
         match o.outcome with
         | some oc => !oc.hasError
         | none => false),
